@@ -259,7 +259,7 @@ func (svc *service) stop() {
 	}
 
 	// Publish will message if WillFlag is set. Server side only.
-	if !svc.client && svc.cmsg != nil && svc.cmsg.WillFlag() {
+	if !svc.client && svc.cmsg != nil && svc.cmsg.WillFlag() && svc.will != nil {
 		log.Warningf("(%s) Connection unexpectedly closed, sending will message", svc.cid())
 		svc.onPublish(svc.will)
 	}
